@@ -10,6 +10,7 @@ ELL = "(({x} is ELLIPSIS_) == (result is ELLIPSIS_))"
 # carve-out (known finding C07-name-dispatch): a plain class whose __name__ equals a handler suffix is routed to that handler
 NOCLASH = "implies(is_class({x}) and kind({x}) is K_Class, not is_dispatch_name(cname({x})))"
 WF = "wf_rw({x})"
+TDS = "forall_int(lambda k: implies(td_okd({x}, k), td_okd(result, k)))"
 
 
 def rw_contract(target, param, kinds=None, rank=1, extra_req=None, loops=None, hints=None, raises=None, extra_ens=None, props=None, mode="proved", note="", assumes=None, in_scc=True):
@@ -18,7 +19,8 @@ def rw_contract(target, param, kinds=None, rank=1, extra_req=None, loops=None, h
         req["kind"] = " or ".join("kind(%s) is K_%s" % (param, k) for k in kinds)
     if extra_req:
         req.update(extra_req)
-    ens = {"post:widen": W.format(x=param), "post:wf": "wf_rw(result)", "post:ellipsis": ELL.format(x=param)}
+    # C06: a rewriter never creates or enlarges a TypedDict node (every node of the result is within any limit the input was within)
+    ens = {"post:widen": W.format(x=param), "post:wf": "wf_rw(result)", "post:ellipsis": ELL.format(x=param), "post:td-size": TDS.format(x=param)}
     if extra_ens:
         ens.update(extra_ens)
     return contract(P + target, props=props or ["C07", "C04", "C01"], theories=TH, scc="rewrite" if in_scc else None, decreases=["depth(%s)" % param, str(rank)] if in_scc else None,
@@ -56,7 +58,7 @@ contract(P + "GenericTypeRewriter._rewrite_container", props=["C07", "C04", "C01
                    "kind": "kind(container) is K_List or kind(container) is K_Set or kind(container) is K_Dict or kind(container) is K_DefaultDict or kind(container) is K_Tuple"
                            " or kind(container) is K_TupleVar or kind(container) is K_Generator or kind(container) is K_Union",
                    "ctor": "cls is ctor_of(container)"},
-         ensures={"post:widen": W.format(x="container"), "post:wf": "wf_rw(result)", "post:ellipsis": "result is not ELLIPSIS_"})
+         ensures={"post:widen": W.format(x="container"), "post:wf": "wf_rw(result)", "post:ellipsis": "result is not ELLIPSIS_", "post:td-size": TDS.format(x="container")})
 for name, kinds in (("Dict", ["Dict"]), ("DefaultDict", ["DefaultDict"]), ("List", ["List"]), ("Set", ["Set"]), ("Tuple", ["Tuple", "TupleVar"]), ("Generator", ["Generator"]), ("Union", ["Union"])):
     rw_contract("GenericTypeRewriter.rewrite_" + name, {"Dict": "dct", "DefaultDict": "dct", "List": "lst", "Set": "st", "Tuple": "tup", "Generator": "generator", "Union": "union"}[name], kinds=kinds)
 rw_contract("GenericTypeRewriter.rewrite_anonymous_TypedDict", "typed_dict", kinds=["TD"], rank=0,
@@ -80,7 +82,7 @@ contract(P + "RemoveEmptyContainers.rewrite_Union", props=["C07", "C01"], theori
          params={"self": "Rewriter", "union": "Ty"}, result="Ty",
          requires={"wf": "wf_rw(union)", "kind": "kind(union) is K_Union"},
          ensures={
-             "post:wf": "wf_rw(result)", "post:ellipsis": "result is not ELLIPSIS_",
+             "post:wf": "wf_rw(result)", "post:ellipsis": "result is not ELLIPSIS_", "post:td-size": TDS.format(x="union"),
              # every member that is kept is widened into the result ...
              "post:kept": "forall(args(union), lambda m: implies(not " + _RED.format(t="m", ms="args(union)") + ","
                           " forall_val(lambda v: implies(mem(v, m), mem(v, result)))))",
@@ -103,11 +105,13 @@ rw_contract("RewriteLargeUnion.rewrite_Union", "union", kinds=["Union"], extra_r
                        "inv": {"true": "true"}}})
 contract(P + "RewriteLargeUnion._rewrite_to_tuple", props=["C07"], theories=TH, params={"self": "Rewriter", "union": "Ty"}, result="Opt[Ty]",
          requires={"wf": WF.format(x="union"), "kind": "kind(union) is K_Union"},
-         ensures={"post:widen": "implies(result is not None, " + W.format(x="union") + ")", "post:wf": "implies(result is not None, wf_rw(result) and result is not ELLIPSIS_)"},
+         ensures={"post:widen": "implies(result is not None, " + W.format(x="union") + ")", "post:wf": "implies(result is not None, wf_rw(result) and result is not ELLIPSIS_)",
+                  "post:td-size": "implies(result is not None, " + TDS.format(x="union") + ")"},
          loops={0: {"iter": "union.__args__",
                     "inv": {"members-wf": "forall(args(union), lambda m: wf_rw(m) and m is not ELLIPSIS_)",
                             "tuples": "forall(range_(0, _i), lambda j: kind(nth(args(union), j)) is K_Tuple or kind(nth(args(union), j)) is K_TupleVar)",
                             "value": "implies(_i > 0, value_type is not None and wf_rw(value_type) and value_type is not ELLIPSIS_)",
+                            "td": "forall_int(lambda k: implies(td_okd(union, k) and _i > 0, td_okd(value_type, k)))",
                             "elems": "forall(range_(0, _i), lambda j: forall(args(nth(args(union), j)), lambda e: e is value_type))"}},
                 "tags": {"value_type": "Opt[Ty]"}})
 rw_contract("RewriteAnonymousTypedDictToDict.rewrite_anonymous_TypedDict", "typed_dict", kinds=["TD"], rank=0,
@@ -151,4 +155,5 @@ rw_contract("RewriteMostSpecificCommonBase.rewrite_Union", "union", kinds=["Unio
 rw_contract("NoOpRewriter.rewrite", "typ", rank=2)
 rw_contract("ChainedRewriter.rewrite", "typ", rank=3, in_scc=False, extra_req={"members": "forall(self.rewriters, lambda r: r is not None)", },
             loops={0: {"iter": "self.rewriters", "inv": {"widen": "forall_val(lambda v: implies(mem(v, old_typ()), mem(v, typ)))",
+                                                        "td": "forall_int(lambda k: implies(td_okd(old_typ(), k), td_okd(typ, k)))",
                                                         "wf": "wf_rw(typ)", "ell": "(typ is ELLIPSIS_) == (old_typ() is ELLIPSIS_)"}}})
